@@ -231,6 +231,42 @@ func (c *exprCtx) localFieldSources(al *ssa.Alloc, field string, d int) []*Expr 
 						}
 						continue
 					}
+					// the callee's own stores into that field through this parameter, when it hands the pointer
+					// to nobody else: the values it can leave there (a struct of bookkeeping passed between the
+					// phases of an operation)
+					if argField == "" && i < len(g.Params) && d < 30 {
+						var vals []*Expr
+						opaque := false
+						for _, gb := range g.Blocks {
+							for _, gin := range gb.Instrs {
+								switch y := gin.(type) {
+								case *ssa.Store:
+									if fa, ok := y.Addr.(*ssa.FieldAddr); ok && fa.X == ssa.Value(g.Params[i]) {
+										if st, isS := pointee(fa.X.Type()).Underlying().(*types.Struct); isS && st.Field(fa.Field).Name() == field {
+											vals = append(vals, c.w.exprOf(g, y.Val))
+										}
+									} else if y.Addr == ssa.Value(g.Params[i]) {
+										opaque = true
+									}
+								case ssa.CallInstruction:
+									for _, ga := range y.Common().Args {
+										if ga == ssa.Value(g.Params[i]) {
+											opaque = true // handed on whole
+										}
+										if fa, ok := ga.(*ssa.FieldAddr); ok && fa.X == ssa.Value(g.Params[i]) {
+											if st, isS := pointee(fa.X.Type()).Underlying().(*types.Struct); isS && st.Field(fa.Field).Name() == field {
+												opaque = true // a pointer to the field itself is handed on
+											}
+										}
+									}
+								}
+							}
+						}
+						if !opaque && len(vals) > 0 {
+							out = append(out, vals...)
+							continue
+						}
+					}
 					out = append(out, &Expr{Op: "call", Name: c.w.shortName(g)})
 				}
 			}
